@@ -359,7 +359,9 @@ spif_str_dup(spif_str_t self)
     tmp = SPIF_ALLOC(str);
     memcpy(tmp, self, SPIF_SIZEOF_TYPE(str));
     if (self->s != (spif_charptr_t) NULL) {
-        tmp->s = (spif_charptr_t) STRDUP((const char *) SPIF_STR_STR(self));
+        /* The duplicate reports the same capacity, so it must own as much. */
+        tmp->s = (spif_charptr_t) MALLOC(self->size);
+        memcpy(tmp->s, self->s, self->len + 1);
     }
     tmp->len = self->len;
     tmp->size = self->size;
